@@ -34,8 +34,9 @@ def _recv_request(conn, buf):
 
 
 class RecordingPeer(object):
-    def __init__(self, unix_path=None, reply=None):
-        self.requests = []          # dicts: line, headers [(name, value)], body (bytes)
+    def __init__(self, unix_path=None, reply=None, probe_excess=False):
+        self.requests = []          # dicts: line, headers [(name, value)], body (bytes), excess (bytes sent beyond the announced body)
+        self.probe_excess = probe_excess
         self.lock = threading.Lock()
         self.reply = reply
         if unix_path:
@@ -74,8 +75,18 @@ class RecordingPeer(object):
                     if b":" in l:
                         n, v = l.split(b":", 1)
                         headers.append((n.decode("latin-1"), v.strip().decode("latin-1")))
+                excess = 0
+                if self.probe_excess:
+                    # the client does not pipeline: whatever follows the announced body belongs to this very message
+                    conn.settimeout(0.05)
+                    try:
+                        more = conn.recv(65536)
+                    except OSError:
+                        more = b""
+                    conn.settimeout(None)
+                    excess, buf = len(buf) + len(more), b""
                 with self.lock:
-                    self.requests.append({"line": lines[0].decode("latin-1"), "headers": headers, "body": body})
+                    self.requests.append({"line": lines[0].decode("latin-1"), "headers": headers, "body": body, "excess": excess})
                 out = self.reply(body) if self.reply else self._default(body)
                 conn.sendall(b"HTTP/1.1 200 OK\r\nContent-Type: application/json-rpc\r\nContent-Length: " +
                              str(len(out)).encode() + b"\r\n\r\n" + out)
